@@ -38,6 +38,7 @@ import (
 
 	"github.com/IrineSistiana/mosdns/v5/pkg/upstream"
 	"github.com/miekg/dns"
+	"github.com/quic-go/quic-go"
 
 	"verifharness/hx"
 )
@@ -495,10 +496,14 @@ type destRec struct {
 	once  sync.Once
 	sni   []string
 	hosts []string // HTTP Host headers
+	sniCh chan struct{}
+	sniO  sync.Once
 	n     int      // number of connects / datagrams (desc only)
 }
 
-func newRec() *destRec { return &destRec{seen: map[string]bool{}, first: make(chan struct{})} }
+func newRec() *destRec {
+	return &destRec{seen: map[string]bool{}, first: make(chan struct{}), sniCh: make(chan struct{})}
+}
 
 func (r *destRec) add(lit string) {
 	r.mu.Lock()
@@ -515,6 +520,7 @@ func (r *destRec) addSNI(s string) {
 	r.mu.Lock()
 	r.sni = append(r.sni, s)
 	r.mu.Unlock()
+	r.sniO.Do(func() { close(r.sniCh) })
 }
 
 func (r *destRec) addHost(s string) {
@@ -1431,6 +1437,261 @@ func allDigits(s string) bool {
 	return true
 }
 
+
+// ---------- sequences of upstreams sharing one tls.Config ----------
+
+type seqUp struct {
+	scheme string
+	e      ep
+	path   string
+}
+
+type seqItem struct {
+	u       uin
+	socks   bool
+	certFor string
+	rec     *destRec
+	up      upstream.Upstream
+	created bool
+	ok      bool
+	err     string
+	quic    bool
+}
+
+// runSeq creates the upstreams one after another from ONE shared tls.Config
+// (ServerName = preset), then uses each once. tls/https go through a proxy of
+// the harness that plays the server (SNI, certificate for one name); quic/doq/h3
+// get dial_addr = a QUIC listener of the harness (SNI of the ClientHello).
+func runSeq(w *hx.Writer, id string, preset string, ups []seqUp) {
+	for attempt := 0; ; attempt++ {
+		coq, desc, starved := runSeqOnce(id, preset, ups)
+		if starved && attempt < 2 {
+			continue
+		}
+		emit(w, "sequence", id, coq, desc)
+		return
+	}
+}
+
+func runSeqOnce(id string, preset string, ups []seqUp) (string, map[string]any, bool) {
+	initCA()
+	shared := &tls.Config{RootCAs: caPool, ServerName: preset}
+	var closers []func()
+	var wg sync.WaitGroup
+	defer func() {
+		for i := len(closers) - 1; i >= 0; i-- {
+			closers[i]()
+		}
+		wg.Wait()
+	}()
+	items := make([]*seqItem, len(ups))
+	panicked := ""
+	for i, su := range ups {
+		it := &seqItem{rec: newRec()}
+		items[i] = it
+		mode, socks, _ := schemeMode(su.scheme)
+		it.socks = socks
+		it.certFor = su.e.host
+		if preset != "" {
+			it.certFor = preset
+		}
+		opt := upstream.Opt{TLSConfig: shared}
+		u := mean(su.scheme, su.e, su.path, nil)
+		cert := leaf(it.certFor)
+		rec := it.rec
+		srvTLS := &tls.Config{
+			Certificates: []tls.Certificate{cert},
+			GetConfigForClient: func(h *tls.ClientHelloInfo) (*tls.Config, error) {
+				rec.addSNI(h.ServerName)
+				return nil, nil
+			},
+		}
+		if socks {
+			ln, err := net.Listen("tcp", "127.0.0.1:0")
+			must(err)
+			closers = append(closers, func() { ln.Close() })
+			opt.Socks5 = ln.Addr().String()
+			var httpL *chanListener
+			if mode == "https" {
+				srvTLS.NextProtos = []string{"h2", "http/1.1"}
+				httpL = &chanListener{ch: make(chan net.Conn), done: make(chan struct{})}
+				srv := &http.Server{Handler: dohHandler(rec), ErrorLog: log.New(io.Discard, "", 0)}
+				wg.Add(1)
+				go func() { defer wg.Done(); srv.Serve(httpL) }()
+				closers = append(closers, func() { srv.Close(); httpL.Close() })
+			}
+			wg.Add(1)
+			go func() {
+				defer wg.Done()
+				for {
+					c, err := ln.Accept()
+					if err != nil {
+						return
+					}
+					wg.Add(1)
+					go func() { defer wg.Done(); socksServe(c, rec, mode, srvTLS, httpL) }()
+				}
+			}()
+		} else {
+			it.quic = true
+			srvTLS.NextProtos = []string{"doq", "h3"}
+			ql, err := quic.ListenAddr("127.0.0.1:0", srvTLS, nil)
+			must(err)
+			closers = append(closers, func() { ql.Close() })
+			_, port, _ := net.SplitHostPort(ql.Addr().String())
+			u.dial = pe(namep("127.0.0.1", port))
+			wg.Add(1)
+			go func() {
+				defer wg.Done()
+				for {
+					c, err := ql.Accept(context.Background())
+					if err != nil {
+						return
+					}
+					c.CloseWithError(0, "")
+				}
+			}()
+		}
+		it.u = u
+		opt.DialAddr = u.dialStr()
+		if p := hx.Recover(func() {
+			up, err := upstream.NewUpstream(u.addrStr(), opt)
+			if err == nil {
+				it.up, it.created = up, true
+			}
+		}); p != nil {
+			panicked = fmt.Sprint(p)
+		}
+	}
+	starved := false
+	for _, it := range items {
+		if !it.created || panicked != "" {
+			continue
+		}
+		it := it
+		if p := hx.Recover(func() {
+			ctx, cancel := context.WithTimeout(context.Background(), 8*time.Second)
+			done := make(chan struct{})
+			go func() {
+				defer close(done)
+				r, err := it.up.ExchangeContext(ctx, query())
+				it.ok = err == nil && r != nil && len(*r) >= 12 && (*r)[2]&0x80 != 0
+				if err != nil {
+					it.err = err.Error()
+				}
+			}()
+			if it.quic {
+				select {
+				case <-it.rec.sniCh:
+				case <-done:
+				case <-ctx.Done():
+				}
+				cancel()
+			}
+			<-done
+			cancel()
+		}); p != nil {
+			panicked = fmt.Sprint(p)
+		}
+		if it.quic {
+			it.ok = false // no DNS service behind the QUIC listener: only the ClientHello is observed
+			select {
+			case <-it.rec.sniCh:
+			default:
+				starved = true
+			}
+		} else if !it.ok && it.rec.n <= 3 && (strings.Contains(it.err, "deadline exceeded") || strings.Contains(it.err, "timeout")) {
+			starved = true
+		}
+	}
+	for _, it := range items {
+		if it.up != nil {
+			it.up.Close()
+		}
+	}
+	if panicked != "" {
+		return hx.App("CPanic", hx.Str(id), hx.Str(preset)), map[string]any{"panic": panicked}, false
+	}
+	var lits []string
+	var dl []map[string]any
+	for _, it := range items {
+		san := hx.App("SanName", hx.Str(it.certFor))
+		if a, err := netip.ParseAddr(it.certFor); err == nil {
+			san = hx.App("SanIp", ipBytes(a))
+		}
+		o := "None"
+		if it.created {
+			o = hx.Some(hx.Tuple(hx.Str(it.rec.sniObserved()), hx.Bool(it.ok)))
+		}
+		lits = append(lits, hx.Tuple(it.u.coq(), hx.Bool(it.socks), san, o))
+		dl = append(dl, map[string]any{"addr": it.u.addrStr(), "dial_addr": it.u.dialStr(), "cert_for": it.certFor,
+			"created": it.created, "sni": it.rec.sniObserved(), "exchange_ok": it.ok, "exchange_err": it.err})
+	}
+	return hx.App("CSeq", hx.Str(preset), hx.List(lits), hx.Str(shared.ServerName), hx.Ni(len(shared.NextProtos))),
+		map[string]any{"preset_server_name": preset, "upstreams": dl, "shared_server_name_after": shared.ServerName,
+			"shared_next_protos_after": len(shared.NextProtos)}, starved
+}
+
+var seqHosts = []string{"a.dns.test", "b.dns.test", "c.dns.test", "dns.example", "x-1.example.org", "d.dns.test"}
+var seqSchemes = []string{"tls", "tls+pipeline", "https", "h3", "quic", "doq", "https", "h3"}
+
+func genSeq(r *hx.RNG) (string, []seqUp) {
+	k := r.Range(2, 4)
+	perm := r.Perm(len(seqHosts))
+	var ups []seqUp
+	for i := 0; i < k; i++ {
+		s := hx.Pick(r, seqSchemes)
+		su := seqUp{scheme: s, e: name(seqHosts[perm[i]])}
+		_, socks, _ := schemeMode(s)
+		if socks {
+			switch r.Intn(6) {
+			case 0:
+				su.e = name(hx.Pick(r, []string{"1.2.3.4", "10.0.0.53"}))
+			case 1:
+				su.e = v6(hx.Pick(r, []string{"2001:db8::1", "::1"}), true)
+			}
+			if r.Bool() && (!su.e.v6 || su.e.br) {
+				su.e.port = sp(hx.Pick(r, goodPorts))
+			}
+		}
+		if s == "https" || s == "h3" {
+			su.path = "/dns-query"
+		}
+		ups = append(ups, su)
+	}
+	preset := ""
+	if r.Chance(1, 5) {
+		preset = "preset.dns.test"
+	}
+	return preset, ups
+}
+
+func seqCatalogue() []struct {
+	preset string
+	ups    []seqUp
+} {
+	h := func(s, host string) seqUp {
+		su := seqUp{scheme: s, e: name(host)}
+		if s == "https" || s == "h3" {
+			su.path = "/dns-query"
+		}
+		return su
+	}
+	return []struct {
+		preset string
+		ups    []seqUp
+	}{
+		{"", []seqUp{h("https", "a.dns.test"), h("https", "b.dns.test")}},
+		{"", []seqUp{h("h3", "a.dns.test"), h("tls", "b.dns.test"), h("https", "c.dns.test")}},
+		{"", []seqUp{h("tls", "a.dns.test"), h("https", "b.dns.test"), h("quic", "c.dns.test"), h("h3", "d.dns.test")}},
+		{"preset.dns.test", []seqUp{h("https", "a.dns.test"), h("https", "b.dns.test"), h("tls", "c.dns.test")}},
+		{"", []seqUp{h("https", "1.2.3.4"), h("https", "b.dns.test")}},
+		{"", []seqUp{h("tls+pipeline", "a.dns.test"), h("doq", "b.dns.test"), h("https", "c.dns.test"), h("https", "d.dns.test")}},
+		{"", []seqUp{h("h3", "a.dns.test"), h("h3", "b.dns.test")}},
+		{"", []seqUp{h("tls", "a.dns.test"), h("tls", "b.dns.test"), h("quic", "c.dns.test")}},
+	}
+}
+
 // ---------- main ----------
 
 func main() {
@@ -1609,5 +1870,25 @@ func main() {
 		if !runNet(w, id, genNet(r)) {
 			w.Tally("net-skipped(bind)", 1)
 		}
+	}
+
+	// sequences of upstreams created from one shared tls.Config
+	for i, c := range seqCatalogue() {
+		id := fmt.Sprintf("seq:%d", i)
+		if o.Want(id) {
+			runSeq(w, id, c.preset, c.ups)
+		}
+	}
+	nq := o.Count(10, 300)
+	if o.N > 0 {
+		nq = o.N / 100
+	}
+	for i := 0; i < nq; i++ {
+		id := fmt.Sprintf("seqgen:%d", i)
+		if !o.Want(id) {
+			continue
+		}
+		preset, ups := genSeq(hx.NewRNG(o.Seed, id))
+		runSeq(w, id, preset, ups)
 	}
 }
